@@ -779,9 +779,25 @@ def _main(run, rng, so_path):
         fjob["backends"] = ["fb"]
         fb_jobs.append({"job": fjob, "w": w, "refo": refo, "steps": steps})
 
+    def rescale(w, vals, refo):
+        """Exact change of scale of the whole problem (values and reference point by the same power of two): tiny scales
+        (2^-20, 2^-30: every box volume and every contribution is far below 1e-12) and a large one.  Differences of
+        coordinates stay short dyadics, so both back-ends stay exact."""
+        u = rng.random()
+        if u >= 0.16:
+            return vals, refo
+        if refo is None:         # the default reference (worst + 1) is not on the scale of the values: products would round
+            nobj = len(w)
+            P = [[-(x * wi) for x, wi in zip(v, w)] for v in vals]
+            refo = [max(p[i] for p in P) + rng.choice([0, 1, 1, 2, Fraction(1, 2)]) for i in range(nobj)]
+        sc = Fraction(1, 2 ** 20) if u < 0.06 else (Fraction(1, 2 ** 30) if u < 0.12 else Fraction(2 ** 12))
+        run.extra_cov["rescaled_populations"] = run.extra_cov.get("rescaled_populations", 0) + 1
+        return [[x * sc for x in v] for v in vals], (None if refo is None else [r * sc for r in refo])
+
     for it in range(run.scale(500, 5000)):
         w, vals = gen_pop()
-        pop_job(w, vals, gen_ref(w, vals))
+        vals, refo = rescale(w, vals, gen_ref(w, vals))
+        pop_job(w, vals, refo)
         if len(jobs) >= CHUNK:
             flush(jobs, so_path)
     for it in range(run.scale(120, 1200)):
